@@ -102,18 +102,3 @@ func VsymC18_Twin() {
 	vsym_Assert(err != nil || !a.Owns("r") || vsym_Bool("z"), "C18/twin")
 }
 
-func VsymC18_Dbg() {
-	e := newVsymEtcd()
-	ca := e.client("A")
-	a := NewLeaseManager(ca, LeaseManagerConfig{BrokerID: "A", Prefix: "/p"})
-	err := a.Acquire(context.Background(), "r")
-	vsym_Assert(err == nil && a.Owns("r"), "dbg/acquired")
-	fa := ca.Lease.(*vsymEtcdFacade)
-	l := e.leases[fa.lastLease]
-	vsym_Assert(l != nil && len(l.ka) == 1, "dbg/keepalive-registered")
-	for _, ch := range l.ka {
-		close(ch)
-	}
-	vsym_Settle()
-	vsym_Assert(!a.Owns("r"), "dbg/ownership-cleared-after-session-death")
-}
